@@ -66,6 +66,7 @@ class World:
         self.log = []
         self.started = False
         self.go = {}            # sid -> Event telling the service task to crash
+        self.svc_started = set()
         self.root_ctx = None
 
     def obs(self, *o):
@@ -87,14 +88,14 @@ async def do_action(a, who):
     k = a[0]
     if k == "Reg":
         cid, pass_exc = a[1], a[2]
-        ctx = current_context()
+        ctx = current_context() if who != "driver" else w.root_ctx
         if pass_exc:
             def cb(exc, cid=cid):
                 w.obs("Td", cid, "none" if exc is None else describe(exc))
             ctx.add_teardown_callback(cb, pass_exception=True)
         else:
             ctx.add_teardown_callback(lambda cid=cid: w.obs("Td", cid, "noarg"))
-        w.obs("Reg", cid)
+        w.obs("Reg", cid, bool(pass_exc))
     elif k == "Svc":
         sid = a[1]
         go = w.go[sid] = anyio.Event()
@@ -103,11 +104,17 @@ async def do_action(a, who):
             try:
                 await go.wait()
             except anyio.get_cancelled_exc_class():
-                w.obs("SvcCancelled", sid)
+                # a task cancelled while start_service_task() was itself being cancelled never became
+                # a service task of the root context
+                w.obs("SvcCancelled" if sid in w.svc_started else "SvcAborted", sid)
                 raise
             w.obs("Crash", sid)
             raise Crash(sid)
-        await start_service_task(svc, f"svc{sid}")
+        if who == "driver":
+            await w.root_ctx.start_service_task(svc, f"svc{sid}")
+        else:
+            await start_service_task(svc, f"svc{sid}")
+        w.svc_started.add(sid)
         w.obs("Svc", sid)
     elif k == "Fail":
         w.obs("Fail", who)
@@ -197,8 +204,7 @@ async def driver():
     # nothing ended the application: stop it so that the harness does not hang
     await anyio.sleep(0.3)
     w.obs("DriverGaveUp")
-    signal.raise_signal(signal.SIGTERM)
-    await anyio.sleep(3600)
+    raise RuntimeError("the application did not end")
 
 
 def run_case(case):
